@@ -70,6 +70,10 @@ def main(tier: str, seed: int, replay: str | None = None) -> int:
                 return E.gen_wp_program(rng, h)
             if k % 10 == 7:
                 return E.gen_misc_program(rng, h)
+            if k % 10 in (1, 6):
+                return E.gen_merge_program(rng, h)
+            if k % 10 == 8:
+                return E.gen_reentrant_elim(rng, h)
             return E.gen_program(rng, h, constrained=(k % 4 != 0))
         items.append((h, [(one(k), []) for k in range(npg)]))
     stats = {"accepted": 0, "rejected": 0, "checker_validated": 0, "groundings": 0,
